@@ -25,7 +25,9 @@ EXPLANATION = (
     "which preserve orthonormal columns; damping / mixing / row scaling would be reported. Aufbau: the "
     "density is rebuilt from the nocc lowest orbital energies (argsort) with occupation 2 (rhf) / 1 (uhf). "
     "SYM-1: uhf.optimize is invariant under exchanging the spin labels; SIB-2: the rhf and uhf Fock "
-    "builds agree for a closed-shell density (dm_up = dm_dn = dm/2)."
+    "builds agree for a closed-shell density (dm_up = dm_dn = dm/2). "
+    "PURE-2: every eigendecomposition reachable from optimize is linalg_utils._eigh. GUARD-1: the "
+    "degeneracy threshold is a small data-independent constant. "
 )
 NOT_DECIDED = "SCF convergence, the fixed-point property, agreement with an independent solver, non-degenerate derivative values."
 TECHNIQUE = "static analysis: reaching-definition guard-chain check, def-use whitelist from eigenvectors to output, symmetry / sibling value numbering"
